@@ -182,3 +182,13 @@ func VerifMayMatchNumber14(pattern string) (may bool, errText string) {
 	}
 	return m, ""
 }
+
+// VerifLoadsPrefs14 exposes LoadsPrefs (util.go) and the basename it switches on.
+func VerifLoadsPrefs14(path string) (loads bool, base string, panicked string) {
+	panicked = VerifPanic(func() {
+		p := NewRelPathString(path)
+		loads = LoadsPrefs(p)
+		base = p.Base().String()
+	})
+	return
+}
